@@ -466,6 +466,52 @@ def run(chk):
         if n_paths != 4:
             return False, "expected the four present/absent combinations of trace id and span id, found %d complete paths" % n_paths, [], b.span
         return True, "", [b.span, pb.span]
+    def flags_neutral():
+        """A fixed-layout text form is the same text under every formatter: `format!("{:>40}", id)` or `{:.8}` must not pad or truncate it, because
+        composite forms (the traceparent header) hand their own formatter on to their parts and parsers expect exact widths.  Structural part: the
+        Display impls of the fixed-layout types write through write_str / write_char / write_fmt (whose placeholders carry their own, default
+        flags), or delegate to another type of the same set - never through Formatter::pad* and never by handing the formatter to a Display impl
+        outside the set (str's Display pads)."""
+        SET = {"emit::span::TraceId", "emit::span::SpanId", "emit_traceparent::TraceFlags", "emit_traceparent::Traceparent",
+               "emit_core::timestamp::Timestamp", "emit::level::Level", "emit::kind::Kind"}
+        ev = []
+        found = set()
+        for b in P.find(trait="core::fmt::Display", method="fmt"):
+            st = mir._strip_lifetimes(b.self_ty or "")
+            if b.is_closure or st not in SET:
+                continue
+            found.add(st)
+            todo, seen = [b], set()
+            while todo:
+                x = todo.pop()
+                if x.key in seen:
+                    continue
+                seen.add(x.key)
+                for c in x.calls(normal_only=True):
+                    nm = c.callee.get("name") or ""
+                    full = c.callee.get("path") or c.callee.get("full") or ""
+                    if nm.startswith("pad") and "Formatter" in full:
+                        return False, ("Display for %s writes through Formatter::%s at %s: width / precision flags pad or truncate a fixed-layout text form "
+                                       "(a traceparent header formatted with flags would no longer be 55 bytes and would not parse back)" % (st, nm, c.loc)), [], c.loc
+                    if nm == "fmt" and (c.callee.get("trait") or "").startswith("core::fmt::"):
+                        tgt = mir._strip_lifetimes(c.callee.get("self_ty") or "")
+                        tgt = tgt.lstrip("&").strip()
+                        if tgt not in SET:
+                            return False, ("Display for %s hands its formatter to %s's %s at %s: the caller's flags then apply to that part alone"
+                                           % (st, tgt or "another type", c.callee.get("trait"), c.loc)), [], c.loc
+                    t = c.target
+                    if t and P.has_body(t) and P.body(t).crate in ("emit", "emit_core", "emit_traceparent") and any("Formatter" in (x.local_ty(i) or "") for i in range(1, P.body(t).argc + 1)) \
+                            and not (nm == "fmt" and (c.callee.get("trait") or "").startswith("core::fmt::")):
+                        todo.append(P.body(t))
+            ev.append(b.span)
+        want = SET if any(bb.crate == "emit_traceparent" for bb in P.bodies.values()) else {x for x in SET if not x.startswith("emit_traceparent")}
+        if P.config != "K1":
+            want = found
+        if want - found:
+            raise mir.AnchorMissing("Display impls of %s" % sorted(want - found))
+        return True, "", ev
+    chk.ob("C15.R4:flags-neutral", "fixed-layout text forms (ids, flags, traceparent, timestamp, level, kind) ignore the caller's width / precision flags", flags_neutral)
+
     chk.ob("C15.R4:traceparent-writer", "the traceparent formatter writes version, ids (or the parser's all-zero sentinels) and flags in the parser's order with the parser's separators", traceparent_writer)
 
     def rfc3339_layout():
@@ -719,6 +765,66 @@ def run(chk):
             raise mir.AnchorMissing("conditionally corrected quotients in the calendar conversions (found %d)" % n)
         return True, "", ev
     chk.ob("C15.R5:adjusted-before-use", "a conditionally corrected quotient of the calendar conversion is never read before its correction", adjusted_before_use)
+
+    def century_years_not_leap():
+        """Gregorian rule in the general (non-shortcut) branch of from_parts: the every-fourth-year test may only be applied to a remainder of years
+        within a century that is known to be non-zero - a remainder of 0 there is a century year (2100, 2200, 2300, 2500 ..), which is *not* a leap
+        year and has its own arm.  Structural part: every `x % 4` / `x / 4` whose x derives from a % 400 or % 100 reduction is dominated by the
+        non-zero edge of a test `x == 0` of the same variable with no write to x in between."""
+        bs = [x for k, x in P.bodies.items() if k.endswith("timestamp::Timestamp::from_parts")]
+        if not bs:
+            raise mir.AnchorMissing("Timestamp::from_parts")
+        b = bs[0]
+
+        def derives_from_century(o, d=0):
+            if d > 10 or not isinstance(o, tuple):
+                return False
+            if o[0] == "binop":
+                if o[1] in ("Rem",) and mir.o_const_value(o[3]) in (100, 400):
+                    return True
+                return derives_from_century(o[2], d + 1) or derives_from_century(o[3], d + 1)
+            if o[0] == "phi":
+                return any(derives_from_century(x, d + 1) for x in o[1])
+            if o[0] in ("field", "cast", "copy"):
+                return derives_from_century(o[1], d + 1)
+            return False
+        ev = []
+        for bb, j, st in b.statements(normal_only=True):
+            rv = st.get("rv") if st.get("k") == "assign" else None
+            if not (rv and rv["k"] == "binop" and rv["op"] in ("Rem", "Div") and mir.o_const_value(b.origin(rv["b"])) == 4):
+                continue
+            x = panics._raw_local(b, rv["a"], bb)
+            if x is None or not derives_from_century(b.origin(rv["a"])):
+                continue
+            ok = False
+            for gbb, vals, tgt in b.guards_of(bb):
+                t = b.blocks[gbb]["term"]
+                dl = b._op_local(t["discr"]) if isinstance(t.get("discr"), dict) else None
+                ds = [d for d in b.defs().get(dl, ()) if d[2] != "partial"] if dl is not None else []
+                if len(ds) != 1 or ds[0][2] != "assign" or ds[0][3]["k"] != "binop" or ds[0][3]["op"] not in ("Eq", "Ne"):
+                    continue
+                g = ds[0][3]
+                sides = [(g["a"], g["b"]), (g["b"], g["a"])]
+                if not any(panics._raw_local(b, a_, gbb) == x and mir.o_const_value(b.origin(z_)) == 0 for a_, z_ in sides):
+                    continue
+                nonzero_edge = ([str(v) for v in vals] == ["0"]) if g["op"] == "Eq" else ("0" not in [str(v) for v in vals])
+                if not nonzero_edge:
+                    continue
+                fwd = b.reachable_from(tgt, removed_blocks=(gbb,))
+                between = {n for n in fwd if n == bb or bb in b.reachable_from(n, removed_blocks=(gbb,))}
+                wr = [d for d in b.defs().get(x, ()) if d[0] in between and not (d[0] == bb and (d[1] == "term" or d[1] >= j))]
+                if not wr:
+                    ok = True
+                    break
+            if not ok:
+                return False, ("Timestamp::from_parts applies the every-fourth-year rule (`%s 4` at %s:%s) to a within-century remainder that may be 0: "
+                               "century years that are not multiples of 400 (2100, 2200, 2300, 2500 ..) would count as leap years and every date in their "
+                               "January / February shifts by a day" % ("%" if rv["op"] == "Rem" else "/", b.file, st.get("line"))), [], "%s:%s" % (b.file, st.get("line"))
+            ev.append("%s:%s" % (b.file, st.get("line")))
+        if not ev:
+            raise mir.AnchorMissing("a `% 4` / `/ 4` step on a century remainder in Timestamp::from_parts")
+        return True, "", ev
+    chk.ob("C15.R5:century-years-not-leap", "the every-fourth-year rule is only applied to a non-zero within-century remainder", century_years_not_leap)
 
     chk.ob("C15.R5:four-year-shortcut", "a leap-year computation without century terms is only reachable for years below 2100",
            four_year_shortcut)
